@@ -1,12 +1,12 @@
 #!/venv/bin/python
 # replay for obligation aioftp.client:Client.list.<locals>.AsyncLister.__anext__::Client.list.<locals>.AsyncLister.__anext__/post:every-line-read-is-parsed-once-in-order-by-its-stream's-parser-only-dot-entries-are-dropped
-# path: recursive=0.already-started=1.queued-directories=1.listing-line-or-eof=0.if@5=F.parsed-entry=2.entry-type=0.listing-line-or-eof=1.Client.list.<locals>.AsyncLister._new_stream-outcome=0.listing-line-or-eof=1.parsed-entry=0.entry-type=0.if@16=F
+# path: recursive=0.already-started=0.listing-line-or-eof=0.while@Client.list.<locals>.AsyncLister_loc.__anext__/loop1=F.parsed-entry=0.entry-type=0.if@14=F
 # run: AIOFTP_REPO=/repo /venv/bin/python /verif/replays/C07_aioftp.client_Client.list._locals_.AsyncLister.__anext___Client.list._locals_.AsyncLister.__anext___post_every-line-read-is-parsed-once-in-order-by-it.py
 import os, sys
 sys.path.insert(0, os.path.join(os.environ.get("AIOFTP_REPO", "/repo"), "src"))
 OBLIGATION = "aioftp.client:Client.list.<locals>.AsyncLister.__anext__::Client.list.<locals>.AsyncLister.__anext__/post:every-line-read-is-parsed-once-in-order-by-its-stream's-parser-only-dot-entries-are-dropped"
-MODEL = {'queued0!138': 'Empty(Seq(String))', 'listing_line!0': 'B', 'listed!136': 'Empty(Seq(String))', 'curdir!137': 'Empty(Seq(String))', 'entry_name!1': 'A'}
-SOLVER_NOTE = ''
+MODEL = {}
+SOLVER_NOTE = 'cvc5=unknown z3=sat'
 
 print("obligation", OBLIGATION, "failed; no concrete failing input could be constructed automatically")
 print("counter-model (may be spurious where string builtins are uninterpreted):")
